@@ -372,6 +372,20 @@ def gen_cases(rng, tier):
                             yield _case(g, f, _number([b, a, c]))
                 for c in nf_closers:
                     yield _case(g, f, _number([a, c]))
+    # REFUSED file-system calls (the k-th call raises PermissionError and returns; later moves are refused as well) at
+    # every step of each kind of save, on top of each kind of good save -- and the per-call flag on DELETE after saves
+    # with and without it; both judged by the oracle only (seeded C19-14, C19-13)
+    for g in (("wf", "fac") if tier == "quick" else GRAPHS):
+        for f in (("default",) if tier == "quick" else FNAMES):
+            for setup in ([["save", "ok"]], [["save", "pf"]], []):
+                for c in CONTENTS:
+                    for k in range(1, 10):
+                        yield _case(g, f, [*_number(setup), ["fault", c, 2, k], ["reopen"], ["load"]])
+            for a in ([["save", "ok"]], [["save", "pf"]], [["save", "pf"], ["savenf", "ok"]], [["save", "ok"], ["save", "pf"]],
+                      [["save", "pf"], ["crash", "ok", 5]], [["save", "ok"], ["crash", "pf", 7]], [["crash", "ok", 3]],
+                      [["savenf", "ok"], ["save", "pf"], ["savenf", "ok"]]):
+                for tail in ([["reopen"]], [["load"], ["delete"], ["reopen"]], [["save", "ok"], ["load"]]):
+                    yield _case(g, f, [*_number(a), ["deletenf"], *_number(tail)])
     # a save interrupted at any call and simply done AGAIN with unchanged content and version (seeded C19-9: a retry that
     # finds its bytes on disk must still tidy up), on top of each kind of good save
     for g in (("wf", "fac") if tier == "quick" else GRAPHS):
@@ -732,8 +746,12 @@ class _ProxyFile:
 class _Tracer:
     """counts the file-system calls made on the store while active; optionally cuts after `cut` calls"""
 
-    def __init__(self, store, cut=None, bytesel="mid", snap=None):
+    def __init__(self, store, cut=None, bytesel="mid", snap=None, fault_at=None):
         self.store, self.cut, self.bytesel, self.snap = store, cut, bytesel, snap
+        # `fault_at = k`: the k-th file-system call does not happen, it RAISES PermissionError and returns to the caller
+        # (a refusing file system, not a dying process); from then on every move (replace / rename) is refused as well
+        self.fault_at = fault_at
+        self.faulted = False
         self.count = 0
         self.events: list[str] = []
         self.dead = False
@@ -777,6 +795,12 @@ class _Tracer:
                     tr.die()
                 if marker:
                     return orig(*a, **k)
+            if tr.fault_at is not None and (tr.count + 1 == tr.fault_at
+                                            or (tr.faulted and name.startswith(("replace", "rename")))):
+                tr.faulted = True
+                tr.count += 1
+                tr.events.append("fault:" + name)
+                raise PermissionError(13, "refused by the file system (injected)", os.fspath(a[0]))
             tr.before()
             there = (not removes) or os.path.lexists(os.fspath(a[0]))
             tr._depth += 1
@@ -801,6 +825,11 @@ class _Tracer:
             slot = tr.store.slot(file) if isinstance(file, (str, os.PathLike)) else None
             if slot is None or tr.dead or not any(c in mode for c in "wax+"):
                 return orig(file, mode, *a, **k)
+            if tr.fault_at is not None and tr.count + 1 == tr.fault_at:
+                tr.faulted = True
+                tr.count += 1
+                tr.events.append("fault:open:" + slot)
+                raise PermissionError(13, "refused by the file system (injected)", os.fspath(file))
             tr.before()
             real = orig(file, mode, *a, **k)
             tr.after("open:" + slot)
@@ -1248,6 +1277,11 @@ def _valid(op, kind="wf", fname="default"):
         if len(op) not in (2, 3) or op[1] not in RELS.get(kind, ()):
             return False
         return len(op) == 2 or (op[2] in PLACEMENTS and _can_place(kind, op[1], op[2]))
+    if op == ["deletenf"]:
+        return True  # delete_storage(cloudpickle_fallback=False): judged by the oracle only, not modelled
+    if op[0] == "fault":
+        # a save during which the k-th file-system call is REFUSED (raises PermissionError): oracle only, not modelled
+        return len(op) == 4 and op[1] in CONTENTS and isinstance(op[2], int) and isinstance(op[3], int) and op[3] >= 1
     if op[0] in ("savenf", "crashnf"):
         # a save asked for with the per-call flag cloudpickle_fallback=False
         return _flat_valid([op[0][:-2], *op[1:]])
@@ -1366,9 +1400,9 @@ def run_impl(case):
     def bump(k):
         stats[k] = stats.get(k, 0) + 1
 
-    def complete(action):
+    def complete(action, fault_at=None):
         """run `action` to its end, tracing the file-system calls"""
-        with _Tracer(store) as tr, _SaveLog() as log:
+        with _Tracer(store, fault_at=fault_at) as tr, _SaveLog() as log:
             exc = None
             try:
                 action()
@@ -1431,6 +1465,16 @@ def run_impl(case):
         elif op[0] == "reopen":
             node, res, exc = _reopen(kind, store)
             rec["exc"] = exc
+        elif op[0] == "deletenf":
+            steps, _o, exc = complete(lambda: node.delete_storage(cloudpickle_fallback=False, **store.kw))
+            rec["exc"] = exc
+            res = "deleted"
+        elif op[0] == "fault":
+            _set(node, op[2], op[1])
+            steps, outs, exc = complete(lambda: node.save(**store.kw), fault_at=op[3])
+            res = "saveRaised" if exc else "saved"
+            rec["exc"] = exc
+            rec["faulted"] = any(x.startswith("fault:") for x in steps)
         elif op[0] == "savenf":
             _set(node, op[2], op[1])
             steps, outs, exc = complete(lambda: node.save(cloudpickle_fallback=False, **store.kw))
@@ -1562,7 +1606,15 @@ def nontrivial(case, r):
 # ----------------------------------------------------------------------------- model side
 
 
+def _oracle_only(case):
+    """histories with ops that are not modelled (a flagged delete, a refused file-system call): the oracle judges them,
+    the correspondence is not asked"""
+    return any(isinstance(op, list) and op and (op == ["deletenf"] or op[0] == "fault") for op in case.get("ops", []))
+
+
 def model_input(case, impl=None):
+    if _oracle_only(case):
+        return []
     kind = case.get("graph", "wf")
     # `dotted`: before 84ba7a5 the two names were ONE file (variants I..C); `pair`: two unrelated names in every variant
     lines = ["layout dotted"] if (case.get("fname") in DOTTED) else ["layout pair"] if (case.get("fname") in GLOBBY) else []
@@ -1636,6 +1688,8 @@ def _first_diff(a, b):
 def diff(case, impl, model):
     """the tree must agree with ONE of the two model variants, the same one on every case"""
     global EXPLANATION
+    if _oracle_only(case):
+        return None
     view = list(impl["obs"])
     st = _streams(model)
     match = {v for v, s in st.items() if s == view}
@@ -1741,7 +1795,13 @@ def oracle(case, r):
         kindop = {"ckpt": "save", "fail": "save", "ckptcrash": "crash", "failcrash": "crash", "savenf": "save",
                   "crashnf": "crash"}.get(flat[0], flat[0])
         first_save = (rec.get("saves") or [res])[0] if op[0] in ("ckpt", "fail") else res
+        if op[0] == "fault":
+            # a save during which a file-system call was refused: if it nevertheless reports success it is a completed
+            # save; if it raises it is a failed save that may have got as far as putting the new content in place
+            kindop = "save" if res == "saved" else "crash"
         trig = {"save": "save" if first_save == "saved" else "save-failed", "crash": "crash"}.get(kindop, kindop)
+        if op[0] == "fault":
+            trig = "fault" if res == "saved" else "fault-failed"
         if op[0] in ("ckpt", "ckptcrash", "fail", "failcrash"):
             trig = {"save": op[0], "save-failed": op[0] + "-failed", "crash": op[0]}[trig]
         elif op[0] in ("savenf", "crashnf"):
@@ -1754,6 +1814,15 @@ def oracle(case, r):
             prom[target]["inf"].add(flat[2])
         elif kindop == "delete":
             prom[target] = {"exp": None, "inf": set()}
+        elif kindop == "deletenf":
+            # delete_storage(cloudpickle_fallback=False) is about the `.pckl` side only: what was promised is gone iff it
+            # lived there (seen on the file system BEFORE the delete, independently of the library); a `.cpckl` that holds
+            # the promised save stays -- and nothing an earlier completed save had superseded may come back
+            st = (before_fs or {}).get("pckl", "")
+            pv = int(st.split(":")[2]) if st.startswith("good:") else None
+            if prom["main"]["exp"] is not None and prom["main"]["exp"] == pv:
+                prom["main"]["exp"] = None
+            prom["main"]["inf"] = {v for v in prom["main"]["inf"] if v != pv}
 
         for which in ("main", *STORES, "nb"):
             if which == "main":
@@ -1878,6 +1947,8 @@ def shrink_candidates(case):
     if case.get("backend") == "custom":
         yield {k: v for k, v in case.items() if k != "backend"}
     for i, op in enumerate(ops):
+        if op and op[0] == "fault" and op[3] > 1:
+            yield {**case, "ops": ops[:i] + [[*op[:3], op[3] - 1]] + ops[i + 1:]}
         if op and op[0] in ("crash", "crashnf", "ckptcrash", "failcrash") and len(op) == 5 and op[3] > 0:
             yield {**case, "ops": ops[:i] + [[*op[:3], op[3] - 1, op[4]]] + ops[i + 1:]}
         if op and op[0] == "at" and len(op) == 7 and op[2] == "crash" and op[5] > 0:
